@@ -22,6 +22,14 @@ EXTENDS SchemaDoc, FiniteSetsExt
 
 CONSTANTS DEV_OmitEmptyAssertingLists, DEV_CaseFoldKeys
 
+\* Seeded mutations of the codec (MUT_Codec = "none": the code as it is; every other value must be refuted by
+\* TLC, see the selftest):
+\*   "dupOnlyPresent"  duplicate PropertyOrder entries are rejected only if they name a property
+\*   "orderGuard"      unlisted properties are written only when PropertyOrder is shorter than properties
+\*   "sortEncoded"     unlisted properties are sorted by their RENDERED member text, not by name
+\*   "falsyDrops"      a schema with "not": {} is written as false whatever else it carries
+CONSTANT MUT_Codec
+
 \* ------------------------------------------------------------ C19
 SeqHas(q, x) == \E i \in DOMAIN q : q[i] = x
 HasDup(q) == \E i, j \in DOMAIN q : i < j /\ q[i] = q[j]
@@ -43,10 +51,15 @@ OPLoop(order, props, processed, out) ==
   ELSE IF Head(order) \in props
          THEN OPLoop(Tail(order), props, processed \cup {Head(order)}, Append(out, Head(order)))
          ELSE OPLoop(Tail(order), props, processed, out)
+RECURSIVE SortNamesEnc(_)
+SortNamesEnc(S) == IF S = {} THEN <<>>
+                   ELSE LET m == CHOOSE x \in S : \A y \in S : StrOrdEnc[x] <= StrOrdEnc[y] IN <<m>> \o SortNamesEnc(S \ {m})
 KeyOrderCode(props, order) ==
-  IF HasDup(order) THEN <<"!error">>
+  IF HasDup(IF MUT_Codec = "dupOnlyPresent" THEN SelectSeq(order, LAMBDA x : x \in props) ELSE order) THEN <<"!error">>
   ELSE LET r == OPLoop(order, props, {}, <<>>)
-       IN r.out \o SortNames({n \in props : n \notin r.processed})
+           rest == {n \in props : n \notin r.processed}
+       IN r.out \o (IF MUT_Codec = "orderGuard" /\ Len(order) >= Cardinality(props) THEN <<>>
+                    ELSE IF MUT_Codec = "sortEncoded" THEN SortNamesEnc(rest) ELSE SortNames(rest))
 
 \* ------------------------------------------------------------ C05
 \* keywords whose Go field is a slice or map with `omitempty`
@@ -68,6 +81,7 @@ RECURSIVE Mar(_)
 \* the document Marshal writes for schema value s (boolean folding is a rendering matter)
 Mar(s) ==
   IF "bool" \in DOMAIN s THEN s
+  ELSE IF MUT_Codec = "falsyDrops" /\ "not" \in DOMAIN s /\ s["not"] = [bool |-> TRUE] THEN [bool |-> FALSE]
   ELSE [k \in Emitted(s) |->
           IF k \in SingleKW THEN Mar(s[k])
           ELSE IF k \in SeqKW THEN [i \in DOMAIN s[k] |-> Mar(s[k][i])]
